@@ -128,7 +128,7 @@ func (c12) Gen(r *world.Rng, tier string, n int) interface{} {
 		if r.Chance(1, 3) {
 			ev.AtTick = uint64(r.Range(1, 3*sc.Steps))
 			if r.Chance(1, 4) {
-				ev.Do = []string{"copystep", "copykeep"}[r.Intn(2)] // ("reenter" - a callback calling cpu.Step() on the running CPU - is supported by the executor but no longer generated: re-entrancy is not promised anywhere)
+				ev.Do = "copystep" // ("copykeep" - a snapshot that keeps whatever cpu.Memory is in the middle of a Step - is supported by the executor but not generated: it leans on what the library does with that field internally; "reenter" - a callback calling cpu.Step() on the running CPU - is supported by the executor but no longer generated: re-entrancy is not promised anywhere)
 			}
 		}
 		switch r.Intn(9) {
@@ -535,7 +535,9 @@ func c12Exec(sc *C12Sc, env *Env) (res *Violation) {
 					return viol("unsupported-consumed", "Step at PC=%04x warned %q; its history must be sequential fetches only: %s", pcBefore, strings.TrimSpace(env.LogBuf.String()), world.FmtLog(log))
 				}
 			}
-			if len(log) == 0 || cpu.PC != pcBefore+uint16(len(log)) {
+			// consumed: PC moved on by at least one and at most the number of fetched bytes (an implementation
+			// may look at a byte in order to find the sequence unsupported and still consume only the prefix)
+			if adv := cpu.PC - pcBefore; len(log) == 0 || adv == 0 || int(adv) > len(log) {
 				return viol("unsupported-consumed", "Step at PC=%04x warned %q, fetched %d bytes but PC=%04x", pcBefore, strings.TrimSpace(env.LogBuf.String()), len(log), cpu.PC)
 			}
 			pendingNext = cpu.PC
